@@ -152,6 +152,14 @@ impl Check for C10 {
     fn required_counters(&self) -> Vec<&'static str> {
         vec!["union_compared", "snapshots_rechecked", "tag_trails_compared", "programs_with_shared_distinctfd", "programs_with_interleaved_branches"]
     }
+    fn miri_lane(&self, tier: Tier) -> Option<(Vec<(&'static str, u64, u64)>, bool)> {
+        // thorough only: the same run_case code interpreted by Miri (Rc::make_mut / copy-on-write paths)
+        if tier == Tier::Thorough {
+            Some((vec![("fd", 0, 16), ("tree", 0, 12), ("fixed", 0, 3)], false))
+        } else {
+            None
+        }
+    }
     fn run_case(&self, gen: &str, seed: u64, index: u64, _tier: Tier) -> CaseOut {
         let mut out = CaseOut::default();
         let mut rng = Rng::for_case(seed, gen, index);
